@@ -193,6 +193,16 @@ func (ex *Executor) dispatchCall(st *State, fr *Frame, cc *ssa.CallCommon, fv Va
 	if !deferred {
 		ex.runAnchors(st, fr, "call", name, ord, "before")
 	}
+	var preSnaps map[int][]Val
+	var preHeap map[string]*Term
+	if ex.observed(name) && fr.depth <= ex.observeDepth() {
+		sargs := args
+		if cc.IsInvoke() && len(args) == len(cc.Args) {
+			sargs = append([]Val{fv}, args...)
+		}
+		preSnaps = ex.snapSlices(st, sargs) // slice arguments as they are when the call starts
+		preHeap = copyHeap(st.heap)
+	}
 	finish := func(res []Val) bool {
 		if ex.observed(name) && fr.depth <= ex.observeDepth() {
 			eargs := args
@@ -200,7 +210,10 @@ func (ex *Executor) dispatchCall(st *State, fr *Frame, cc *ssa.CallCommon, fv Va
 				// interface method: the receiver is the first event argument
 				eargs = append([]Val{fv}, args...)
 			}
-			st.events = append(st.events, &Event{Kind: "call", Fn: name, Args: eargs, Res: res, Pos: ex.pos(ins)})
+			ev := &Event{Kind: "call", Fn: name, Args: eargs, Res: res, Pos: ex.pos(ins)}
+			ev.Snaps = preSnaps
+			ev.Heap = preHeap
+			st.events = append(st.events, ev)
 		}
 		if !deferred {
 			ex.setResult(st, fr, resVal, res)
@@ -265,8 +278,9 @@ func (ex *Executor) dispatchCall(st *State, fr *Frame, cc *ssa.CallCommon, fv Va
 			return finish(res)
 		}
 		if !ex.observed(name) {
-			ex.Assumed["call of unknown function value in "+fr.fn.String()+": results havocked, tracked heap unchanged"] = true
+			ex.Assumed["call of unknown function value in "+fr.fn.String()+": results havocked, memory behind its pointer arguments (one level) havocked, rest of the tracked heap unchanged"] = true
 		}
+		ex.havocPointees(st, args)
 		return finish(ex.havocResults(st, cc.Signature(), "dyn"))
 	}
 	var binds []Val
@@ -297,7 +311,9 @@ func (ex *Executor) dispatchCall(st *State, fr *Frame, cc *ssa.CallCommon, fv Va
 	}
 	inRepoFn := key != "" && len(fn.Blocks) > 0
 	if spec != nil && !spec.Inline && !(fr.unit && fn == fr.fn) {
+		ex.callBinds = binds
 		res, ok := ex.applyContract(st, fr, spec, fn, fn.Signature, args, ins, name, ord)
+		ex.callBinds = nil
 		if !ok {
 			return false
 		}
@@ -416,6 +432,34 @@ func (ex *Executor) freshValOfType(st *State, label string, ty types.Type) Val {
 	return ex.freshOfType(st, label, ty)
 }
 
+// snapSlices: the elements of short slice arguments as they are when the call happens (a row condition that indexes
+// a bound slice argument means the argument as passed, not as it may look after later writes)
+func (ex *Executor) snapSlices(st *State, args []Val) map[int][]Val {
+	var out map[int][]Val
+	for i, a := range args {
+		if a.T == nil || a.Ty == nil {
+			continue
+		}
+		sl, ok := a.Ty.Underlying().(*types.Slice)
+		if !ok {
+			continue
+		}
+		n := ex.slen(a.T)
+		if !n.IsNum() || !n.Num.IsInt64() || n.Num.Int64() > 8 {
+			continue
+		}
+		var elems []Val
+		for k := int64(0); k < n.Num.Int64(); k++ {
+			elems = append(elems, ex.sliceElem(st, nil, a.T, Num(k), sl.Elem()))
+		}
+		if out == nil {
+			out = map[int][]Val{}
+		}
+		out[i] = elems
+	}
+	return out
+}
+
 func (ex *Executor) observeDepth() int {
 	if ex.unitSpec != nil && ex.unitSpec.Opts["observe-depth"] != "" {
 		var d int
@@ -477,6 +521,18 @@ func (ex *Executor) applyContract(st *State, fr *Frame, spec *FuncSpec, fn *ssa.
 	for i, n := range pnames {
 		env.vars[n] = args[i]
 		env.vars[fmt.Sprintf("arg%d", i)] = args[i]
+	}
+	// a closure's contract may talk about its captured variables: they denote the cells bound at the call
+	if fn != nil && len(fn.FreeVars) > 0 && len(ex.callBinds) == len(fn.FreeVars) {
+		for i, fv := range fn.FreeVars {
+			b := ex.callBinds[i]
+			if b.Ty == nil {
+				b.Ty = fv.Type()
+			}
+			if _, clash := env.vars[fv.Name()]; !clash {
+				env.vars[fv.Name()] = ex.load(st, b)
+			}
+		}
 	}
 	if spec.IsExt || spec.IsIface || spec.Trusted {
 		ex.Assumed["assumed contract: "+spec.Key] = true
@@ -907,7 +963,15 @@ func (ex *Executor) callWrites(cc *ssa.CallCommon, w map[string]bool) {
 		if mc, ok := cc.Value.(*ssa.MakeClosure); ok {
 			sc = mc.Fn.(*ssa.Function)
 		} else {
+			// unknown function value: it may write through the pointers it is given (one level, as havocPointees)
+			pointeeWrites(cc, w)
 			return
+		}
+	}
+	if funcKey(sc) == "" || len(sc.Blocks) == 0 {
+		// external function: same rule
+		if !isBigMethod(sc) {
+			pointeeWrites(cc, w)
 		}
 	}
 	key := funcKey(sc)
@@ -934,6 +998,47 @@ func (ex *Executor) callWrites(cc *ssa.CallCommon, w map[string]bool) {
 	if key != "" && len(sc.Blocks) > 0 {
 		for k := range ex.writtenIn(sc) {
 			w[k] = true
+		}
+	}
+}
+
+func isBigMethod(fn *ssa.Function) bool {
+	return fn.Pkg != nil && fn.Pkg.Pkg.Path() == "math/big"
+}
+
+// pointeeWrites: the heap maps an uncontracted callee may write through its pointer arguments (one level)
+func pointeeWrites(cc *ssa.CallCommon, w map[string]bool) {
+	for _, a := range cc.Args {
+		t := a.Type()
+		if mi, ok := a.(*ssa.MakeInterface); ok {
+			t = mi.X.Type()
+		}
+		pt, ok := t.Underlying().(*types.Pointer)
+		if !ok {
+			continue
+		}
+		el := pt.Elem()
+		if n, ok := el.(*types.Named); ok && n.Obj().Pkg() != nil && !inRepo(n.Obj().Pkg()) {
+			continue
+		}
+		if st := structOf(el); st != nil && !isBigIntPtr(t) {
+			var add func(owner types.Type)
+			add = func(owner types.Type) {
+				s := structOf(owner)
+				for i := 0; i < s.NumFields(); i++ {
+					f := s.Field(i)
+					if isStruct(f.Type()) && !isBigIntPtr(types.NewPointer(f.Type())) {
+						add(f.Type())
+					} else {
+						w[fieldMapName(owner, f.Name())] = true
+					}
+				}
+			}
+			add(el)
+			continue
+		}
+		if _, isArr := el.Underlying().(*types.Array); !isArr {
+			w[cellName(sortOf(el))] = true
 		}
 	}
 }
